@@ -546,7 +546,7 @@ func getSnapshotCount(ctx storage.Context) int {
 // Count MUST NOT be negative.
 func UpdateSnapshotCount(count int) {
 	common.CheckAlphabetWitness()
-	if count < 0 {
+	if count < 1 {
 		panic("count must be positive")
 	}
 	ctx := storage.GetContext()
